@@ -174,7 +174,7 @@ class C10(Check):
             if mo != mf:
                 return 'model-vs-spec', dict(det, model_after_reset=mo, model_fresh=mf)
             if mf != fresh[:-1]:
-                return 'violation', dict(det, expected={'model': mf}, observed={'fresh': fresh[:-1]}, note='implementation differs from the online model')
+                return 'model-differs', dict(det, expected={'model': mf}, observed={'fresh': fresh[:-1]}, note='the reset monitor behaves like a fresh one, but both differ from the online model on which C10_reset is proved (C02 is the property that is violated)')
         return 'ok', None
 
     def nontrivial(self, c):
